@@ -3,6 +3,7 @@
  * canonical result lines.   usage: hx <stream> [params] < cases > results
  */
 #define _GNU_SOURCE
+#include <sys/mman.h>
 #include <math.h>
 #include <stdarg.h>
 #include <stdbool.h>
@@ -102,7 +103,25 @@ static unsigned char* parse_hex(const char* s, size_t* n) {
 static __thread unsigned al_rot;
 static __thread unsigned char* al_base;
 static __thread unsigned char* al_ptr;
+/* HX_ROINPUT: the input is placed at the END of a private mapping that is then made read-only and is followed by an
+   inaccessible page: a decoder that stores into the caller's buffer (even transiently) or reads one byte past it
+   faults, in any build flavour */
+static int ro_mode = -1;
+static __thread unsigned char* ro_map; static __thread size_t ro_len;
 static unsigned char* aligned_copy(const unsigned char* src, size_t n) {
+  if (ro_mode < 0) ro_mode = getenv("HX_ROINPUT") != NULL;
+  if (ro_mode) {
+    size_t pg = 4096, body = ((n + pg - 1) / pg + 1) * pg;
+    unsigned char* m = mmap(NULL, body + pg, PROT_READ | PROT_WRITE, MAP_PRIVATE | MAP_ANONYMOUS, -1, 0);
+    if (m == MAP_FAILED) { fprintf(stderr, "hx: mmap failed\n"); exit(3); }
+    unsigned char* p = m + body - n;
+    if (n) memcpy(p, src, n);
+    mprotect(m, body, PROT_READ);
+    mprotect(m + body, pg, PROT_NONE);
+    ro_map = m; ro_len = body + pg;
+    al_base = NULL; al_ptr = p;
+    return p;
+  }
   unsigned a = (al_rot++ * 7u + 3u) & 15u;
   unsigned char* base = malloc(n + a ? n + a : 1);
   memset(base, 0xD7, a);
@@ -116,7 +135,11 @@ static unsigned char* parse_hex_al(const char* s, size_t* n) {
   free(t);
   return r;
 }
-static void free_al(unsigned char* p) { if (p == al_ptr) { free(al_base); al_ptr = al_base = NULL; } else free(p); }
+static void free_al(unsigned char* p) {
+  if (p == al_ptr && ro_map) { munmap(ro_map, ro_len); ro_map = NULL; al_ptr = NULL; }
+  else if (p == al_ptr) { free(al_base); al_ptr = al_base = NULL; }
+  else free(p);
+}
 
 static void ob_hex(const unsigned char* d, size_t n) {
   if (n == 0) { ob_printf("-"); return; }
@@ -399,7 +422,8 @@ static void do_load(char* line) {
   a_reset(); a_live = 0;
   cbor_item_t* it = cbor_load(buf, n, &res);
   /* the input may be freed or overwritten at once */
-  memset(buf, 0xEE, n); free_al(buf);
+  if (!ro_mode) memset(buf, 0xEE, n);
+  free_al(buf);
   const size_t unw = (size_t)0xAAAAAAAAAAAAAAAAull;
   if (it) {
     ob_printf("ok %zu ", res.read);
@@ -429,7 +453,8 @@ static void load_post_body(char* line) {
   memset(&res, 0xAA, sizeof res);
   a_reset(); a_live = 0;
   cbor_item_t* it = cbor_load(buf, n, &res);
-  memset(buf, 0xEE, n); free_al(buf);
+  if (!ro_mode) memset(buf, 0xEE, n);
+  free_al(buf);
   if (it) {
     ob_printf("ok %zu ", res.read);
     dump_rc_ok = true; dump_item(it);
@@ -684,7 +709,6 @@ static void do_ser(char* line) {
 /* ------------------------------------------------------------------ stream: bigsuffix (C14)
  * "x|n": x followed by n zero bytes of an untouched anonymous mapping (costs no memory): decoding
  * must give exactly what decoding x alone gives */
-#include <sys/mman.h>
 static void do_bigsuffix(char* line) {
   char* bar = strchr(line, '|');
   if (!bar) { ob_printf("BADCASE"); return; }
@@ -995,12 +1019,12 @@ static void do_frag(char* line) {
       static int fixed_mode = -1;
       if (fixed_mode < 0) fixed_mode = getenv("HX_FIXEDRX") != NULL;
       bool use_fixed = fixed_mode && buffered <= sizeof fixed_rx;
-      unsigned char* view = use_fixed ? fixed_rx : malloc(buffered ? buffered : 1);
-      if (buffered) memcpy(view, buffer, buffered);
+      unsigned char* view = use_fixed ? fixed_rx : aligned_copy(buffer, buffered);   /* rotating start alignment */
+      if (use_fixed && buffered) memcpy(view, buffer, buffered);
       if (use_fixed) memset(view + buffered, 0xD7, sizeof fixed_rx - buffered < 32 ? sizeof fixed_rx - buffered : 32);
       rec_base = view;
       struct cbor_decoder_result r = cbor_stream_decode(view, buffered, &rec_callbacks, NULL);
-      if (!use_fixed) free(view);
+      if (!use_fixed) free_al(view);
       if (r.status == CBOR_DECODER_FINISHED) {
         if (r.read == 0 || r.read > buffered) { fault = true; break; }
         memmove(buffer, buffer + r.read, buffered - r.read);
